@@ -137,12 +137,24 @@ def r4(tree, rep, tier):
     a5common.report(rep, "C14.R4", sums, a5common.INTERNAL)
 
 
+def r5(tree, rep):
+    """package-wide interface agreement: a method called on a wired collaborator exists on the collaborator's class (an AttributeError on
+    a legal API call is an internal failure that no unit test sees, because the tests hand every class a mock neighbour)"""
+    from .. import interfaces
+    from ..automat_x import Program
+    prog = Program(tree)
+    n_sites = interfaces.check(tree, rep, "C14.R5", [c for c in prog.classes if ":" not in c])
+    if n_sites < 150:
+        raise AnalysisError("interface agreement: only %d resolvable call sites in the package" % n_sites)
+
+
 def run(tree, rep, tier):
     from .. import sharedstate
     sharedstate.check(tree, rep, "C14.R0")
     r2(tree, rep)
     r3(tree, rep)
     r4(tree, rep, tier)
+    r5(tree, rep)
     r1(tree, rep, tier)
 
 
